@@ -425,6 +425,10 @@ def t_zeros_like(I, x, **k):
     return T.const_tensor(x.shape, CplxV(0, 0) if x.dtype == "complex" else Fraction(0), x.dtype)
 
 
+def t_ones_like(I, x, **k):
+    return T.const_tensor(x.shape, CplxV(1, 0) if x.dtype == "complex" else Fraction(1), x.dtype)
+
+
 def t_empty_like(I, x, **k):
     f = z3.Function(I.ctx.fresh_name("empty"), *([z3.IntSort()] * x.ndim),
                     z3.IntSort() if x.dtype == "int" else z3.RealSort())
@@ -548,7 +552,7 @@ def t_sqrt(I, x):
 
 TORCH = {
     "as_tensor": t_as_tensor, "tensor": t_tensor, "zeros": t_zeros, "ones": t_ones,
-    "zeros_like": t_zeros_like, "empty_like": t_empty_like, "arange": t_arange, "eye": t_eye,
+    "zeros_like": t_zeros_like, "ones_like": t_ones_like, "empty_like": t_empty_like, "arange": t_arange, "eye": t_eye,
     "where": t_where, "abs": t_abs, "stack": t_stack, "all": t_all, "any": t_any, "sum": t_sum,
     "equal": t_equal, "logical_not": t_logical_not, "is_complex": t_is_complex, "flip": t_flip,
     "max": t_max, "sqrt": t_sqrt,
